@@ -118,26 +118,40 @@ class LineScheduler:
         started = [False] * self.n
         taken = []
 
+        blocked = [False] * self.n
+
         def step(i):
+            """let thread i run one traced line; False if it is finished or blocked (e.g. on a lock)"""
             if self.done[i]:
+                return False
+            if blocked[i]:
+                # it was released earlier and is waiting for a lock: see whether it got to a line meanwhile
+                if self.at_line.acquire(timeout=0.05):
+                    blocked[i] = False
+                    taken.append(i)
+                    return True
                 return False
             if not started[i]:
                 started[i] = True
                 ths[i].start()
-                self.at_line.acquire()          # reaches its first traced line (or finishes)
+            else:
+                self.go[i].release()
+            if self.at_line.acquire(timeout=0.3):
                 taken.append(i)
                 return True
-            self.go[i].release()
-            self.at_line.acquire()
-            taken.append(i)
-            return True
+            blocked[i] = True          # no line boundary reached: blocked on a lock held by a paused thread
+            return False
         for i in schedule:
             step(i)
-        for i in range(self.n):
-            guard = 0
-            while not self.done[i] and guard < 10000:
-                step(i)
-                guard += 1
+        guard = 0
+        while not all(self.done) and guard < 2000:
+            progressed = False
+            for i in range(self.n):
+                if not self.done[i] and step(i):
+                    progressed = True
+            guard += 1
+            if not progressed and all(self.done[i] or blocked[i] for i in range(self.n)):
+                break          # genuine deadlock of the code under test
         return list(self.results), taken
 
 
